@@ -54,6 +54,7 @@ Definition roz (r : result (option Z)) (b : option Z) : bool :=
   match r with Ok x => option_eqb Z.eqb x b | Err _ => false end.
 Definition roa (r : result (option (Z * Z))) (b : option (Z * Z)) : bool :=
   match r with Ok x => option_eqb (fun u v => ((fst u =? fst v) && (snd u =? snd v))%Z) x b | Err _ => false end.
+Definition iserr {A} (r : result A) : bool := match r with Err _ => true | Ok _ => false end.
 Definition rl (r : result (list Z)) (b : list Z) : bool := res_eqb (list_eqb Z.eqb) r (Ok b).
 Definition ceq (c : curve) (name : list N) (p a b gx gy n h : Z) : bool :=
   list_eqb N.eqb (c_name c) name &&
@@ -442,9 +443,21 @@ def _correspondence_cases(ctx):
         add("(Bool.eqb (contains_point %s %s %s %s %s) %s)" % (qZ(x), qZ(y), qZ(p), qZ(a), qZ(b), qbool(got)),
             ("contains", p, a, b, x, y, got))
         ctx.case(("contains", p, a, b, x, y))
-    # (4) hand models on small curves: exact Jacobian coordinates
+    # (4) hand models on small curves.  An exception of the implementation must be an Err of the model.
     heavy = []
     n_model = ctx.budget(500, 5000)
+
+    def run(f):
+        try:
+            return ("ok", f())
+        except ImplTimeout:
+            raise
+        except Exception as e:          # noqa
+            return ("exc", repr(e))
+
+    def qaff(t):
+        return "None" if t is None else "(Some (%s, %s))" % (qZ(t[0]), qZ(t[1]))
+
     for i in range(n_model):
         p, a, b, n = r.choice(SMALL)
         cv = ec.CurveFp(p, a, b, 1)
@@ -452,18 +465,17 @@ def _correspondence_cases(ctx):
         P = r.choice(pts + [None])
         z = r.choice([1, 1, 2, 3, r.randrange(1, p)])
         op = r.choice(["mul", "mul", "mul", "mul_add", "mul_add", "scale", "eq", "double", "add", "valid", "ecdh", "pubkey"])
+        model = None        # coq term of type result _ ; cmp: function value -> coq bool
         if op == "mul":
             gen = P is not None and r.random() < 0.5
             order = n if (gen or r.random() < 0.5) else None
             k = r.choice([0, 1, 2, n - 1, n, n + 1, 2 * n, 2 * n + 1, r.randrange(0, 3 * n + 1)])
             pt = mkpt(cv, P, z, order, gen)
             J = coords(pt)
-            try:
-                R = pt * k
-            except Exception:
-                continue
-            add("(rjequiv %s (pj_mul %s %s %s %s %s %s) %s)" % (qZ(p), qZ(p), qZ(a), qZ(order or 0), qbool(gen), qj(J), qZ(k),
-                                                              qoj(coords(R))), ("mul", p, a, b, order, gen, J, k))
+            model = "(pj_mul %s %s %s %s %s %s)" % (qZ(p), qZ(a), qZ(order or 0), qbool(gen), qj(J), qZ(k))
+            res = run(lambda: coords(pt * k))
+            cmp = lambda v: "(rjequiv %s %s %s)" % (qZ(p), model, qoj(v))
+            m = ("mul", p, a, b, order, gen, J, k)
             ctx.dist["model:mul:%s" % ("table" if gen else "naf")] += 1
         elif op == "mul_add":
             Q = r.choice(pts + [None])
@@ -474,49 +486,50 @@ def _correspondence_cases(ctx):
             k1, k2 = (r.choice([0, 1, 2, n - 1, n, n + 1, r.randrange(0, 2 * n)]) for _ in range(2))
             p1, p2 = mkpt(cv, P, z, o1, g1), mkpt(cv, Q, r.choice([1, 2, 3]), o2, g2)
             J1, J2 = coords(p1), coords(p2)
-            try:
-                R = p1.mul_add(k1, p2, k2)
-            except Exception:
-                continue
-            add("(rjequiv %s (pj_mul_add %s %s %s %s %s %s %s %s %s %s) %s)" % (
-                qZ(p), qZ(p), qZ(a), qZ(o1 or 0), qbool(g1), qj(J1), qZ(k1), qZ(o2 or 0), qbool(g2), qj(J2), qZ(k2),
-                qoj(coords(R))), ("mul_add", p, a, b, o1, g1, J1, k1, o2, g2, J2, k2))
+            model = "(pj_mul_add %s %s %s %s %s %s %s %s %s %s)" % (
+                qZ(p), qZ(a), qZ(o1 or 0), qbool(g1), qj(J1), qZ(k1), qZ(o2 or 0), qbool(g2), qj(J2), qZ(k2))
+            res = run(lambda: coords(p1.mul_add(k1, p2, k2)))
+            cmp = lambda v: "(rjequiv %s %s %s)" % (qZ(p), model, qoj(v))
+            m = ("mul_add", p, a, b, o1, g1, J1, k1, o2, g2, J2, k2)
             ctx.dist["model:mul_add"] += 1
         elif op == "scale":
             pt = mkpt(cv, P, z)
             J = coords(pt)
-            try:
+
+            def f():
                 x, y = pt.x(), pt.y()
-                A = pt.to_affine()
                 S = coords(mkpt(cv, P, z).scale())
-            except Exception:
-                continue
-            aff = None if A == ec.INFINITY else (int(A.x()), int(A.y()))
-            add("(rzm %s (pj_x %s %s) %s && rzm %s (pj_y %s %s) %s && rj1 %s (pj_scale %s %s) %s && roam %s (pj_to_affine %s %s) %s)" % (
-                qZ(p), qZ(p), qj(J), qZ(int(x)), qZ(p), qZ(p), qj(J), qZ(int(y)), qZ(p), qZ(p), qj(J), qj(S), qZ(p), qZ(p), qj(J),
-                "None" if aff is None else "(Some (%s, %s))" % (qZ(aff[0]), qZ(aff[1]))), ("scale", p, J))
+                A = pt.to_affine()
+                return (int(x), int(y), S, None if A == ec.INFINITY else (int(A.x()), int(A.y())))
+            model = "(pj_scale %s %s)" % (qZ(p), qj(J))
+            res = run(f)
+            cmp = lambda v: "(rzm %s (pj_x %s %s) %s && rzm %s (pj_y %s %s) %s && rj1 %s (pj_scale %s %s) %s && roam %s (pj_to_affine %s %s) %s)" % (
+                qZ(p), qZ(p), qj(J), qZ(v[0]), qZ(p), qZ(p), qj(J), qZ(v[1]), qZ(p), qZ(p), qj(J), qj(v[2]), qZ(p), qZ(p), qj(J), qaff(v[3]))
+            m = ("scale", p, J)
             ctx.dist["model:scale"] += 1
         elif op == "eq":
-            Q = r.choice([P, P, r.choice(pts)]) if P is not None else r.choice(pts)
             if P is None:
                 continue
+            Q = r.choice([P, P, r.choice(pts)])
             p1, p2 = mkpt(cv, P, z), mkpt(cv, Q, r.choice([1, 2, 3]))
-            got = bool(p1 == p2)
-            add("(Bool.eqb (pj_eqb %s %s %s) %s)" % (qZ(p), qj(coords(p1)), qj(coords(p2)), qbool(got)), ("eq", p))
+            res = run(lambda: bool(p1 == p2))
+            cmp = lambda v: "(Bool.eqb (pj_eqb %s %s %s) %s)" % (qZ(p), qj(coords(p1)), qj(coords(p2)), qbool(v))
+            m = ("eq", p, coords(p1), coords(p2))
             ctx.dist["model:eq"] += 1
         elif op == "double":
             pt = mkpt(cv, P, z)
             J = coords(pt)
-            R = pt.double()
-            add("(jequiv %s (pj_double_pt %s %s %s) %s)" % (qZ(p), qZ(p), qZ(a), qj(J), qoj(coords(R))), ("double", p, a, J))
+            res = run(lambda: coords(pt.double()))
+            cmp = lambda v: "(jequiv %s (pj_double_pt %s %s %s) %s)" % (qZ(p), qZ(p), qZ(a), qj(J), qoj(v))
+            m = ("double", p, a, J)
             ctx.dist["model:double"] += 1
         elif op == "add":
             Q = r.choice([P, a_neg(P, p), r.choice(pts), None])
             p1, p2 = mkpt(cv, P, z), mkpt(cv, Q, r.choice([1, z, 2]))
             J1, J2 = coords(p1), coords(p2)
-            R = p1 + p2
-            add("(jequiv %s (pj_add_pt %s %s (Some %s) (Some %s)) %s)" % (qZ(p), qZ(p), qZ(a), qj(J1), qj(J2), qoj(coords(R))),
-                ("add", p, a, J1, J2))
+            res = run(lambda: coords(p1 + p2))
+            cmp = lambda v: "(jequiv %s (pj_add_pt %s %s (Some %s) (Some %s)) %s)" % (qZ(p), qZ(p), qZ(a), qj(J1), qj(J2), qoj(v))
+            m = ("add", p, a, J1, J2)
             ctx.dist["model:add"] += 1
         elif op == "valid":
             G = pts[0]
@@ -524,36 +537,50 @@ def _correspondence_cases(ctx):
             cvh = ec.CurveFp(p, a, b, h)
             gen = ec.PointJacobi(cvh, G[0], G[1], 1, n, generator=True)
             x, y = r.choice([r.choice(pts), (r.randrange(-2, p + 3), r.randrange(-2, p + 3)), (0, 0), (p, 1)])
-            try:
-                ecdsa_mod.Public_key(gen, ec.PointJacobi(cvh, x, y, 1), True)
-                ok = True
-            except ecdsa_mod.InvalidPointError:
-                ok = False
-            except Exception:
+
+            def f():
+                try:
+                    ecdsa_mod.Public_key(gen, ec.PointJacobi(cvh, x, y, 1), True)
+                    return True
+                except ecdsa_mod.InvalidPointError:
+                    return False
+            model = "(pubkey_valid %s %s %s %s %s true %s %s)" % (qZ(p), qZ(a), qZ(b), qZ(n), qZ(h), qZ(x), qZ(y))
+            res = run(f)
+            cmp = lambda v: "(rb %s %s)" % (model, qbool(v))
+            m = ("valid", p, a, b, n, h, x, y)
+            ctx.dist["model:valid:%s" % (res[1] if res[0] == "ok" else "exc")] += 1
+        elif op == "pubkey":
+            if P is None:
                 continue
-            add("(rb (pubkey_valid %s %s %s %s %s true %s %s) %s)" % (qZ(p), qZ(a), qZ(b), qZ(n), qZ(h), qZ(x), qZ(y),
-                                                                      qbool(ok)), ("valid", p, a, b, n, h, x, y, ok))
-            ctx.dist["model:valid:%s" % ok] += 1
+            d = r.randrange(1, n)
+
+            def f():
+                R = ec.PointJacobi(cv, P[0], P[1], 1, n, generator=True) * d
+                R = R.scale() if hasattr(R, "scale") else R
+                return None if R == ec.INFINITY else (int(R.x()), int(R.y()))
+            model = "(pubkey_of %s %s %s %s %s)" % (qZ(p), qZ(a), qZ(n), qj((P[0], P[1], 1)), qZ(d))
+            res = run(f)
+            cmp = lambda v: "(roa %s %s)" % (model, qaff(v))
+            m = ("pubkey", p, a, n, P, d)
+            ctx.dist["model:pubkey"] += 1
         else:
             if P is None:
                 continue
             d = r.randrange(1, n)
-            if op == "pubkey":
-                g = ec.PointJacobi(cv, P[0], P[1], 1, n, generator=True)
-                R = g * d
-                R = R.scale() if hasattr(R, "scale") else R
-                aff = None if R == ec.INFINITY else (int(R.x()), int(R.y()))
-                add("(roa (pubkey_of %s %s %s %s %s) %s)" % (qZ(p), qZ(a), qZ(n), qj((P[0], P[1], 1)), qZ(d),
-                                                           "None" if aff is None else "(Some (%s, %s))" % (qZ(aff[0]), qZ(aff[1]))),
-                    ("pubkey", p, a, n, P, d))
-                ctx.dist["model:pubkey"] += 1
-            else:
-                Q = ec.PointJacobi(cv, P[0], P[1], 1)
-                R = Q * d
-                s = None if R == ec.INFINITY else int(R.x())
-                add("(roz (ecdh_shared %s %s %s %s) %s)" % (qZ(p), qZ(a), qj((P[0], P[1], 1)), qZ(d),
-                                                          "None" if s is None else "(Some %s)" % qZ(s)), ("ecdh", p, a, P, d))
-                ctx.dist["model:ecdh"] += 1
+
+            def f():
+                R = ec.PointJacobi(cv, P[0], P[1], 1) * d
+                return None if R == ec.INFINITY else int(R.x())
+            model = "(ecdh_shared %s %s %s %s)" % (qZ(p), qZ(a), qj((P[0], P[1], 1)), qZ(d))
+            res = run(f)
+            cmp = lambda v: "(roz %s %s)" % (model, "None" if v is None else "(Some %s)" % qZ(v))
+            m = ("ecdh", p, a, P, d)
+            ctx.dist["model:ecdh"] += 1
+        if res[0] == "ok":
+            add(cmp(res[1]), m)
+        else:
+            ctx.dist["model:impl-exception"] += 1
+            add("(iserr %s)" % model if model else "false", m + ("implementation raised " + res[1],))
         ctx.case(("model", op, i))
     # (5) hand models on shipped curves: a few multiplications (slow inside Coq: one per shard)
     cs = shipped()
@@ -1112,6 +1139,50 @@ def replay(ctx, data):
                 want = a_mul(d["d1"] * d["d2"] % n, G, p, a)[0].to_bytes((p.bit_length() + 7) // 8, "big")
                 print("  party1:", s1.hex(), " party2:", s2.hex(), " independent:", want.hex())
                 rc |= not (s1 == s2 == want)
+            elif op == "padd":
+                P, Q = tuple(d["P"]), tuple(d["Q"])
+                g1 = to_aff(ec.Point(cv, P[0], P[1], n) + ec.Point(cv, Q[0], Q[1], n), p)
+                z = d["z"]
+                g2 = to_aff(mkpt(cv, P, tuple(z) if isinstance(z, list) else z, n) + ec.Point(cv, Q[0], Q[1], n), p)
+                want = a_add(P, Q, p, a)
+                print("  Point+Point:", g1, " PointJacobi+Point:", g2, " independent affine:", want)
+                rc |= g1 != want or g2 != want
+            elif op == "eq":
+                got = bool(ec.PointJacobi(cv, *d["J1"], n) == ec.PointJacobi(cv, *d["J2"], n))
+                print("  implementation ==:", got, " same affine point:", aff(d["J1"]) == aff(d["J2"]))
+                rc |= got != (aff(d["J1"]) == aff(d["J2"]))
+            elif op == "neg":
+                got, want = to_aff(-ec.PointJacobi(cv, *d["J1"], n), p), a_neg(aff(d["J1"]), p)
+                print("  implementation:", got, " independent affine:", want)
+                rc |= got != want
+            elif op == "validate-small":
+                L = (p.bit_length() + 7) // 8
+                G0 = points_of(p, a, d["b"])[0]
+                gen = ec.PointJacobi(cv, G0[0], G0[1], 1, n, generator=True)
+                C = curves.Curve("T", cv, gen, None)
+                x, y = d["x"], d["y"]
+                valid = x < p and y < p and (y * y - (x * x * x + a * x + d["b"])) % p == 0
+                acc = not rejected(keys.VerifyingKey.from_string, x.to_bytes(L, "big") + y.to_bytes(L, "big"), curve=C)
+                acc2 = not rejected(ecdsa_mod.Public_key, gen, ec.PointJacobi(cv, x, y, 1))
+                print("  from_string accepted:", acc, " Public_key accepted:", acc2, " valid (in range and on the curve):", valid)
+                rc |= acc != valid or acc2 != valid
+            elif op == "ecdh-small":
+                G0 = points_of(p, a, d["b"])[0]
+                gen = ec.PointJacobi(cv, G0[0], G0[1], 1, n, generator=True)
+                C = curves.Curve("T", cv, gen, None)
+                e1, e2 = ecdh.ECDH(C), ecdh.ECDH(C)
+                pub1 = e1.load_private_key(keys.SigningKey.from_secret_exponent(d["d1"], C))
+                pub2 = e2.load_private_key(keys.SigningKey.from_secret_exponent(d["d2"], C))
+                e1.load_received_public_key_bytes(pub2.to_string())
+                e2.load_received_public_key_bytes(pub1.to_string())
+                s1, s2 = e1.generate_sharedsecret_bytes(), e2.generate_sharedsecret_bytes()
+                S = a_mul(d["d1"] * d["d2"], G0, p, a)
+                print("  party1:", s1.hex(), " party2:", s2.hex(), " independent x:", None if S is None else S[0])
+                rc |= not (S is not None and s1 == s2 == S[0].to_bytes((p.bit_length() + 7) // 8, "big"))
+            elif op == "order":
+                got = to_aff(c.generator * n, p)
+                print("  n*G:", got, " (must be None = INFINITY)")
+                rc |= got is not None
             else:
                 print("  (re-run `bin/check C17` for this kind)")
                 rc |= 1
